@@ -47,6 +47,8 @@ class C19(Property):
         "Area.to_minimal_json", "Row", "Row.can_fit", "Row.add", "pack", "adjust_cross_origin_area",
         "build_area_rows")] + [
         ("antismash/outputs/html/js.py", "convert_regions"),
+        ("antismash/common/secmet/features/protocluster.py", "SideloadedProtocluster.__init__"),
+        ("antismash/common/secmet/features/subregion.py", "SideloadedSubRegion.__init__"),
         ("antismash/outputs/html/js.py", "convert_cds_features"),
         ("antismash/common/secmet/features/region/structures.py", "Region.get_unique_protoclusters"),
         ("antismash/common/secmet/features/region/structures.py", "Region.candidate_clusters"),
@@ -84,7 +86,7 @@ class C19(Property):
         "and is taken as delivered)",
         "region / candidate locations are computed by the real `connect_locations` (C04/C06) and fed to the model",
         "Biopython location classes; Python `id()` uniqueness for group ids (modelled as a counter, compared after "
-        "renaming by first occurrence)",
+        "renaming by first occurrence) and for telling protocluster objects apart",
     ]
 
     # ------------------------------------------------------------------ generators
@@ -288,10 +290,15 @@ class C19(Property):
             cands = [{"kind": "single", "members": [i]} for i in range(len(protos))]
             if len(protos) > 1:
                 cands.append({"kind": "neighbouring", "members": list(range(len(protos)))})
-            for subs in ([], [{"loc": ring_loc(20, 8, L), "label": "s0"}]):
-                total += 1
-                yield {"kind": "regions", "L": L, "circular": True, "protos": protos, "cands": cands,
-                       "subs": subs, "genes": genes, "mode": "direct"}
+            variants = [protos]
+            if len(protos) == 2 and protos[0]["loc"] == protos[1]["loc"]:
+                # same extent: also as twins (same product, the second a sideloaded annotation)
+                variants.append([protos[0], dict(protos[1], product=protos[0]["product"], sideloaded=True)])
+            for plist in variants:
+                for subs in ([], [{"loc": ring_loc(20, 8, L), "label": "s0"}]):
+                    total += 1
+                    yield {"kind": "regions", "L": L, "circular": True, "protos": plist, "cands": cands,
+                           "subs": subs, "genes": genes, "mode": "direct"}
         # complete for <= 2 protoclusters of the family (x with/without a subregion); triples are sampled
         self.exhaustive_done = full
         self.extra_coverage = {"small_scope_cases": total, "small_scope_singles": len(singles),
@@ -319,7 +326,10 @@ class C19(Property):
         return out
 
     @staticmethod
-    def _area_json(a: Dict[str, Any]) -> Dict[str, Any]:
+    def _area_json(a: Dict[str, Any]) -> Optional[Dict[str, Any]]:
+        """the harness's own reading of one minimal area object (None when a mandatory key is missing)"""
+        if any(key not in a for key in ("start", "end", "kind", "height")):
+            return None
         return {"start": int(a["start"]), "end": int(a["end"]), "kind": KINDS.get(a["kind"], a["kind"]),
                 "height": int(a["height"]), "nstart": int(a.get("neighbouring_start", a["start"])),
                 "nend": int(a.get("neighbouring_end", a["end"])), "product": a.get("product", ""),
@@ -410,8 +420,12 @@ class C19(Property):
                 tags.append(o["locus_tag"][:-6] if split else o["locus_tag"])
                 orfs.append({"start": int(o["start"]), "end": int(o["end"]), "strand": int(o["strand"]),
                              "split": split, "group": int(o.get("group", 0))})
+            read = [self._area_json(a) for a in jsr["clusters"]]
+            raw = [[[k, (v if isinstance(v, str) else int(v))] for k, v in a.items()]
+                   for a in canon_groups(jsr["clusters"])]
             info["impl"] = {"start": int(jsr["start"]), "end": int(jsr["end"]),
-                            "areas": canon_groups([self._area_json(a) for a in jsr["clusters"]]),
+                            "areas": canon_groups(read) if all(r is not None for r in read) else None,
+                            "areas_raw": raw, "area_keys": [list(a.keys()) for a in jsr["clusters"]],
                             "orfs": canon_groups(orfs),
                             "tags_ok": [t for t, _ in itertools.groupby(tags)] == names}
         return {"regions": regions}
@@ -467,7 +481,10 @@ class C19(Property):
             m_orfs = canon_groups(model["orfs"])
             if m_areas != impl["areas"]:
                 corr = False
-                details.append(f"areas: model {m_areas} vs implementation {impl['areas']}")
+                details.append(f"areas: model {m_areas} vs implementation {impl['areas'] or impl['areas_raw']}")
+            elif model["area_keys"] != impl["area_keys"]:
+                corr = False
+                details.append(f"to_minimal_json keys: model {model['area_keys']} vs implementation {impl['area_keys']}")
             if m_orfs != impl["orfs"] or not impl["tags_ok"]:
                 corr = False
                 details.append(f"orfs: model {m_orfs} vs implementation {impl['orfs']}")
@@ -494,7 +511,7 @@ class C19(Property):
                 if bad:
                     spec_ok = False
                     details.insert(0, f"areas violate {bad}: region {info['region']['parts']} L={info['L']} "
-                                      f"areas {impl['areas']}")
+                                      f"areas {impl['areas'] or impl['areas_raw']}")
             if sg:
                 bad = [k for k, v in spec["orfs"].items() if not v]
                 if bad:
@@ -502,8 +519,9 @@ class C19(Property):
                     details.insert(0, f"orfs violate {bad}: region {info['region']['parts']} L={info['L']} "
                                       f"genes {info['genes']} orfs {impl['orfs']}")
             inf = d["info"]
-            heights = {a["height"] for a in impl["areas"]}
-            drawn = len([a for a in impl["areas"] if not a["group"]]) + len({a["group"] for a in impl["areas"] if a["group"]})
+            areas = impl["areas"] or []
+            heights = {a["height"] for a in areas}
+            drawn = len([a for a in areas if not a["group"]]) + len({a["group"] for a in areas if a["group"]})
             shared_row = drawn > len(heights)
             if (inf["extend"] and (inf["n_crossing"] or inf["n_gene_crossing"])) or shared_row:
                 nontrivial = True
